@@ -15,7 +15,7 @@ HASH_ITER = re.compile(r"std::collections::hash::(map|set)::(Iter|IterMut|IntoIt
 ADAPTORS = {"map", "filter", "filter_map", "cloned", "copied", "enumerate", "chain", "zip", "rev", "skip", "take", "flat_map", "flatten", "peekable",
             "inspect", "map_while", "skip_while", "take_while", "step_by", "by_ref", "into_iter", "iter", "iter_mut", "fuse", "scan", "dedup", "unique",
             "interleave", "size_hint", "clone", "borrow", "borrow_mut", "deref", "deref_mut", "as_ref", "as_mut", "drop"}
-INSENSITIVE = {"any", "all", "count", "sum", "product", "len", "is_empty"}
+INSENSITIVE = {"any", "all", "count", "sum", "product", "len", "is_empty", "min", "max"}   # min/max of Ord values: the value does not depend on the order
 ORDERED_DST = ("std::collections::hash::", "alloc::collections::btree::")
 
 # classification of the remaining sites, each confirmed by reading.  key: (function, consumer) -> (count, verdict, reason)
